@@ -16,12 +16,12 @@ def cterm(t) -> str:
     tag = t[0]
     if tag == 'app':
         _, name, hp, st, args = t
-        return f"(TApp {cn(name_id(name))} {cz(hp)} {cterm(st)} {cl([cterm(a) for a in args], 'term')})"
+        return f"(TApp {cn(name_id(name))} {cz(-7 if hp is None else hp)} {cterm(st)} {cl([cterm(a) for a in args], 'term')})"
     if tag == 'proj':
         return f'(TProj {cn(t[1])} {cterm(t[2])})'
     if tag == 'state':
         _, name, hp, prev, feats, labels = t
-        return f'(TState {cn(name_id(name))} {cz(hp)} {cterm(prev)} {cterm(feats)} {cterm(labels)})'
+        return f'(TState {cn(name_id(name))} {cz(-7 if hp is None else hp)} {cterm(prev)} {cterm(feats)} {cterm(labels)})'
     if tag == 'tup':
         return f"(TTup {cl([cterm(a) for a in t[1]], 'term')})"
     raise ValueError(f'not a symbolic term: {t!r}')
